@@ -113,26 +113,28 @@ pub fn decide(s: &str, want: Option<&Value>, sub: &str, st: &mut Stats) {
 
 /// Whole-expression differential with exact (spelling-preserving) comparison of the value.
 pub fn decide_exact(s: &str, st: &mut Stats) {
+    // a non-null document: multi-select forms are null on null
+    let doc = json!({"z": 0});
     st.evaluations += 1;
     st.validated += 1;
     let rp = rparse::parse(s);
-    let out = crate::implx::impl_search(s, &Value::Null);
+    let out = crate::implx::impl_search(s, &doc);
     match (&rp, &out) {
         (Err(_), Out::CompileErr(_)) => st.outcome("rejected by both"),
         (Ok(p), Out::Value(g, false)) => {
-            let r = Eval::builtin().search(&p.tree, &Value::Null);
+            let r = Eval::builtin().search(&p.tree, &doc);
             match r {
                 Ok(crate::reval::V::J(w)) if serde_json::to_string(&w).unwrap() == serde_json::to_string(g).unwrap() => {
                     st.nontrivial += 1;
                     st.outcome("exact value");
                 }
                 other => {
-                    st.violate(viol("C09/value-exact", "literal-pairs", s, &Value::Null, ref_brief(&other), out.brief()));
+                    st.violate(viol("C09/value-exact", "literal-pairs", s, &doc, ref_brief(&other), out.brief()));
                 }
             }
         }
-        (Ok(_), _) => st.violate(viol("C09/well-formed-form-rejected", "literal-pairs", s, &Value::Null, "a value".into(), out.brief())),
-        (Err(_), _) => st.violate(viol("C09/malformed-form-accepted", "literal-pairs", s, &Value::Null, "rejected".into(), out.brief())),
+        (Ok(_), _) => st.violate(viol("C09/well-formed-form-rejected", "literal-pairs", s, &doc, "a value".into(), out.brief())),
+        (Err(_), _) => st.violate(viol("C09/malformed-form-accepted", "literal-pairs", s, &doc, "rejected".into(), out.brief())),
     }
 }
 
